@@ -73,28 +73,28 @@ begin
   op_mod_2 <= buffer_op_mod_2;
   
   -- CONCURRENT BLOCK (logic_simple)
-  temp <= (input) + (15);
+  temp <= (input) + (unsigned'("1101"));
   buffer_op_add <= temp;
-  temp1 <= (input) - (15);
+  temp1 <= (input) - (unsigned'("1101"));
   buffer_op_sub <= temp1;
-  temp2 <= (input) * (15);
+  temp2 <= (input) * (unsigned'("1101"));
   buffer_op_mul <= temp2;
-  temp3 <= (input) / (15);
+  temp3 <= (input) / (unsigned'("1101"));
   buffer_op_div <= temp3;
-  temp4 <= (input) / (15);
+  temp4 <= (input) / (unsigned'("1101"));
   buffer_op_tdiv <= temp4;
-  temp5 <= (input) mod (15);
+  temp5 <= (input) mod (unsigned'("1101"));
   buffer_op_mod <= temp5;
-  temp6 <= (input) rem (15);
+  temp6 <= (input) rem (unsigned'("1101"));
   buffer_op_rem <= temp6;
-  temp7 <= (15) + (input);
+  temp7 <= (unsigned'("1101")) + (input);
   buffer_op_add_2 <= temp7;
-  temp8 <= (15) - (input);
+  temp8 <= (unsigned'("1101")) - (input);
   buffer_op_sub_2 <= temp8;
-  temp9 <= (15) * (input);
+  temp9 <= (unsigned'("1101")) * (input);
   buffer_op_mul_2 <= temp9;
-  temp10 <= (15) / (input_div);
+  temp10 <= (unsigned'("1101")) / (input_div);
   buffer_op_div_2 <= temp10;
-  temp11 <= (15) mod (input_div);
+  temp11 <= (unsigned'("1101")) mod (input_div);
   buffer_op_mod_2 <= temp11;
 end architecture arch_test_operations_const;
